@@ -177,6 +177,21 @@ fn direct_checks(acc: &mut Acc) {
 /// facts the analysis holds (read through the public getters): what the dump loses shows up here.
 fn decode_and_compare(text: &str, acc: &mut Acc, kind: &str) {
     let Ok(a) = analyze(text) else { return };
+    decode_and_compare_analysis(&a, text, acc, kind);
+}
+
+/// The same for a program that is spread over several files (the dump lists the nodes of all files;
+/// every index in it must mean the same node as in the analysis).
+fn decode_and_compare_files(files: &[(String, String)], acc: &mut Acc, kind: &str) {
+    let Ok(a) = guarded(|| crate::rva::analyze_with(crate::rva::MemReader::new(files), FILE)) else { return };
+    let shown = files.iter().map(|(n, t)| format!("=== {n}\n{t}")).collect::<Vec<_>>().join("\n");
+    if a.cfg.is_ok() {
+        acc.count("multi_file_dumps_decoded", 1);
+    }
+    decode_and_compare_analysis(&a, &shown, acc, kind);
+}
+
+fn decode_and_compare_analysis(a: &crate::rva::Analysis, text: &str, acc: &mut Acc, kind: &str) {
     let Ok(cfg) = a.cfg.as_ref() else { return };
     let gv = GraphView::of(cfg);
     let Ok(Ok(y)) = guarded(|| serde_yaml::to_string(&CfgWrapper::from(cfg))) else { return };
@@ -258,7 +273,7 @@ pub fn run(ctx: &Ctx) -> i32 {
         ctx,
         "(i) every AvailableValue variant x boundary payloads, every MemoryLocation variant x negative/zero/positive offsets, register sets and register maps: dump (serde_yaml, the --yaml format), load, compare; \
          pairwise-distinct values must have pairwise-distinct dumps. (ii) whole graphs of generated programs and CSR-heavy programs: CfgWrapper dump -> load -> dump must be identical, and one-instruction mutants whose \
-         fact snapshots (taken through the public getters) differ must have different dumps; the same through `rva lint --yaml`. (iii) decoder: every dump (generated programs, shared-tail families, trap handlers, \
+         fact snapshots (taken through the public getters) differ must have different dumps; the same through `rva lint --yaml`. (iii) decoder: every dump (generated programs - also split into included files -, shared-tail families, trap handlers, \
          call-graph shapes with overlapping functions) is loaded as plain node records and compared field by field with the analysis (edges, liveness, register and memory facts, labels, and per node the set of (entry, exit) pairs of its functions). distinct_nontrivial = distinct values / locations / program dumps checked",
     );
     rep.assume("lists that represent sets (func_entry / func_exit) are compared as sets");
@@ -308,6 +323,14 @@ pub fn run(ctx: &Ctx) -> i32 {
             }
             // ---- decode the dump and compare with the analysis, field by field
             decode_and_compare(&text, &mut acc, "generated");
+            if k % 2 == 0 {
+                // the same program spread over included files
+                let files = super::c10::split_into_files(&text, &mut rng, 3);
+                if files.len() > 1 {
+                    acc.evaluations += 1;
+                    decode_and_compare_files(&files, &mut acc, "generated, split into files");
+                }
+            }
             let mut family: Vec<shapes::Shape> = vec![shapes::shared_tail_family(&mut rng), shapes::trap_handler_family(&mut rng)];
             if k % 4 == 0 {
                 family.extend(shapes::call_graph_shapes(&mut rng));
@@ -365,6 +388,7 @@ pub fn run(ctx: &Ctx) -> i32 {
     rep.require("graphs_round_tripped", 50);
     rep.require("mutant_pairs_compared", 100);
     rep.require("dumps_decoded", 100);
+    rep.require("multi_file_dumps_decoded", 30);
     rep.require("decoded_nodes_in_several_functions", 20);
     rep.acc.sample(json!({"value": "ValueInCsr(5)", "expected": "a dump different from Constant(5)"}));
     rep.finish()
